@@ -1,5 +1,6 @@
 import DatamonVerif.Drv.Common
 import DatamonVerif.Model.Cafs
+import DatamonVerif.Model.CafsSeq
 import DatamonVerif.Model.Blake2b
 /-! Driver for C01 / C02 / C03: replays cafs traces on `Model/Cafs.lean` with `H := BLAKE2b`. -/
 namespace DV.CafsDrv
@@ -113,6 +114,39 @@ def modelRead (st : St) (o : Obj) (style : String) (off n : Nat) : Except RErr B
       | .ok ws => .ok (assembleAt ws)
     else .error .notfound
 
+/-- `mode=<eofOnEmpty><eager>-<cap>` -/
+def parseMode (t : String) : RMode :=
+  match t.splitOn "-" with
+  | [f, c] =>
+    let fl := f.toList
+    { eofOnEmpty := fl[0]? == some '1', eager := fl[1]? == some '1', cap := c.toNat?.getD 0 }
+  | _ => { eofOnEmpty := true, eager := false, cap := 0 }
+
+/-- the caller's loop over the `Read` state machine with cyclic buffer sizes: the chunks
+    delivered (newest first), each call's byte count (newest first) and how the loop ended -/
+def drainSeq (m : RMode) (L : Nat) (s : Store) (keys : List Bytes) (bufs : Array Nat) :
+    Nat → Nat → SR → List Bytes → List Nat → List Bytes × List Nat × ROut
+  | 0, _, _, outs, cnts => (outs, cnts, .fuel)
+  | fuel + 1, i, st, outs, cnts =>
+    let w := bufs[i % bufs.size]?.getD 1
+    match SR.read m H true L s keys w st with
+    | (st', out, .ok) => drainSeq m L s keys bufs fuel (i + 1) st' (out :: outs) (out.length :: cnts)
+    | (_, out, r) => (out :: outs, out.length :: cnts, r)
+
+def modelSeq (st : St) (o : Obj) (mode : String) (bufs : List Nat) : String :=
+  match objectKeys H o.leaf st.store o.key with
+  | .error e => showErr e ++ " calls="
+  | .ok keys =>
+    let total := (keys.map fun k => ((st.store.get k).getD []).length).sum
+    let (outs, cnts, r) := drainSeq (parseMode mode) o.leaf st.store keys bufs.toArray (total + 4) 0 SR.init [] []
+    let calls := ",".intercalate ((cnts.reverse.take 60).map toString)
+    match r with
+    | .eof => "ok " ++ showBytes outs.reverse.flatten ++ " calls=" ++ calls
+    | .err e => showErr e ++ " calls=" ++ calls
+    | .ok => "MODEL-ok calls=" ++ calls
+    | .panic => "MODEL-panic calls=" ++ calls
+    | .fuel => "MODEL-fuel calls=" ++ calls
+
 def expected (o : Obj) (style : String) (off n : Nat) : Bytes :=
   if style == "readat" then (o.content.drop off).take n else o.content
 
@@ -142,6 +176,9 @@ def step (st : St) (op : String) : St × Option String :=
     | none => (st, some "noobj")
     | some o =>
       let style := (kvGet kv "style").getD ""
+      if style == "readseq" then
+        (st, some (modelSeq st o ((kvGet kv "mode").getD "") (natList ((kvGet kv "bufs").getD "1"))))
+      else
       match modelRead st o style ((kvNat kv "off").getD 0) ((kvNat kv "n").getD 0) with
       | .ok b => (st, some ("ok " ++ showBytes b))
       | .error e => (st, some (showErr e))
@@ -156,7 +193,7 @@ def step (st : St) (op : String) : St × Option String :=
       let n := (kvNat kv "n").getD 0
       let got := (kvGet kv "got").getD ""
       let want := showBytes (expected o style off n)
-      let pred := match modelRead st o style off n with
+      let pred := if style == "readseq" then "n/a" else match modelRead st o style off n with
         | .ok b => if showBytes b == want then "ok" else "WRONG"
         | .error _ => "err"
       let verdict := if got == "err" || got == want then "sound" else "UNSOUND"
